@@ -3,6 +3,7 @@ package props
 import (
 	"encoding/json"
 	"fmt"
+	"strings"
 	"testing"
 
 	seccomp "github.com/elastic/go-seccomp-bpf"
@@ -19,6 +20,9 @@ import (
 type c06Case struct {
 	Prog labelvm.Program `json:"prog"`
 	Seed uint64          `json:"seed"`
+	// Again: Assemble is called this many more times on the same Program value; the list judged is the one returned by
+	// the last call (a builder may refuse to assemble twice - no claim then - but must not return a different program).
+	Again int `json:"again,omitempty"`
 }
 
 func mix(a, b uint64) uint64 {
@@ -127,11 +131,13 @@ func drawLabelProgram(t *rapid.T) c06Case {
 		}
 	}
 	p[n-1] = labelvm.Ins{Kind: labelvm.Ret, Val: 0x10000000 + uint32(n-1)}
-	return c06Case{Prog: p, Seed: rapid.Uint64().Draw(t, "seed")}
+	c := c06Case{Prog: p, Seed: rapid.Uint64().Draw(t, "seed")}
+	c.Again = []int{0, 0, 0, 0, 1, 1, 2}[rapid.IntRange(0, 6).Draw(t, "again")]
+	return c
 }
 
 // buildWithBuilder replays the label program as public builder calls.
-func buildWithBuilder(p labelvm.Program) (insts []bpf.Instruction, err error, panicked any) {
+func buildWithBuilder(p labelvm.Program, again int) (insts []bpf.Instruction, err error, panicked any) {
 	defer func() {
 		if x := recover(); x != nil {
 			panicked = x
@@ -169,6 +175,14 @@ func buildWithBuilder(p labelvm.Program) (insts []bpf.Instruction, err error, pa
 		}
 	}
 	insts, err = prog.Assemble()
+	for k := 0; k < again && err == nil; k++ {
+		first := insts
+		insts, err = prog.Assemble()
+		if err != nil {
+			return nil, fmt.Errorf("(call %d on the same Program) %v", k+2, err), nil
+		}
+		_ = first
+	}
 	return insts, err, nil
 }
 
@@ -197,16 +211,23 @@ func checkC06(raw json.RawMessage) (ev.Result, error) {
 	}
 	n := len(p)
 	res := ev.Result{}
-	insts, err, pan := buildWithBuilder(p)
+	insts, err, pan := buildWithBuilder(p, c.Again)
 	if pan != nil {
 		return res, fmt.Errorf("builder panicked on a well-formed label program of %d instructions: %v", n, pan)
 	}
 	c06Stats.built++
 	if err != nil {
 		// C06 does not claim acceptance (C07 does, for policies).
+		if c.Again > 0 && strings.HasPrefix(err.Error(), "(call ") {
+			res.Classes = append(res.Classes, "repeated-assemble-refused(no-claim)")
+			return res, nil
+		}
 		c06Stats.rejected++
 		res.Classes = append(res.Classes, "rejected-by-assemble", "rejected: "+err.Error())
 		return res, nil
+	}
+	if c.Again > 0 {
+		res.Classes = append(res.Classes, "assembled-more-than-once")
 	}
 	prog, err := toRaw(insts)
 	if err != nil {
